@@ -168,12 +168,14 @@ func (p *parser) parseStatement() ast.Statement {
 	// If you are adding another case here, please make sure the callee does
 	// not return nil or you should add nil checking and explicitly return
 	// concrete nil. (https://github.com/gobuffalo/plush/pull/171)
+	// any number of "<%" may precede a statement (a loop, not a call per "<%")
+	for p.curTokenIs(token.S_START) {
+		p.nextToken()
+	}
+
 	switch p.curToken.Type {
 	case token.LET:
 		return p.parseLetStatement()
-	case token.S_START:
-		p.nextToken()
-		return p.parseStatement()
 	case token.RETURN:
 		return p.parseReturnStatement(token.RETURN)
 	case token.E_START:
